@@ -230,14 +230,18 @@ def build_runner():
 
 
 def write_overlay():
+    """hooks/<pkg>_hooks.go or hooks/<pkg>__<tag>_hooks.go  ->  <repo>/<pkg>/zz_verif[_<tag>]_hooks.go
+    (pkg "root" is the top-level package)."""
     hooks = os.path.join(VERIF, 'harness', 'hooks')
     rep = {}
     for f in sorted(os.listdir(hooks)):
         if not f.endswith('_hooks.go'):
             continue
-        pkg = f[:-len('_hooks.go')]
+        stem = f[:-len('_hooks.go')]
+        pkg, _, tag = stem.partition('__')
         sub = '' if pkg == 'root' else pkg
-        rep[os.path.join(REPO, sub, 'zz_verif_hooks.go')] = os.path.join(hooks, f)
+        name = 'zz_verif_hooks.go' if not tag else 'zz_verif_%s_hooks.go' % tag
+        rep[os.path.join(REPO, sub, name)] = os.path.join(hooks, f)
     p = os.path.join(BUILD, 'overlay.json')
     s = json.dumps({'Replace': rep}, indent=1)
     if not os.path.exists(p) or open(p).read() != s:
@@ -249,15 +253,20 @@ def build_harness():
     with Lock('harness'):
         ov = write_overlay()
         hd = os.path.join(VERIF, 'harness')
+        # go.mod / go.sum for this run live in build/ (the replace directive points at REPO)
+        mod = open(os.path.join(hd, 'go.mod')).read().replace('=> /repo', '=> ' + REPO)
+        modfile = os.path.join(BUILD, 'harness.mod')
+        if not os.path.exists(modfile) or open(modfile).read() != mod:
+            open(modfile, 'w').write(mod)
         try:
             src = open(os.path.join(REPO, 'go.sum')).read()
-            dst = os.path.join(hd, 'go.sum')
+            dst = os.path.join(BUILD, 'harness.sum')
             if not os.path.exists(dst) or open(dst).read() != src:
                 open(dst, 'w').write(src)
         except FileNotFoundError:
             pass
-        rc, out, _ = run(['go', 'build', '-tags', 'verif', '-overlay', ov, '-o', os.path.join(BUILD, 'harness'), '.'],
-                         cwd=hd, timeout=1200)
+        rc, out, _ = run(['go', 'build', '-modfile', modfile, '-tags', 'verif', '-overlay', ov,
+                          '-o', os.path.join(BUILD, 'harness'), '.'], cwd=hd, timeout=1200)
     return rc == 0, out
 
 
